@@ -851,3 +851,72 @@ def fold_in_func(ctx, fi, expr):
         import copy
         expr = ast.fix_missing_locations(_R().visit(copy.deepcopy(expr)))
     return ctx.fold.eval(expr, env, fi.module.name)
+
+
+def flag_vocabulary(ctx):
+    """names of the warning / error flags the package can raise: the text in
+    front of '<' in every flag literal / f-string, and every constant bound to
+    a variable called ``flag``"""
+    import re as _re
+    voc = set()
+    for mod in ctx.repo.modules.values():
+        if '.parser.' not in mod.name + '.':
+            continue
+        for n in ast.walk(mod.tree):
+            if isinstance(n, ast.JoinedStr) and n.values and isinstance(n.values[0], ast.Constant) \
+                    and isinstance(n.values[0].value, str):
+                m = _re.match(r'^([a-z][a-z_0-9]*)<', n.values[0].value)
+                if m:
+                    voc.add(m.group(1))
+            elif isinstance(n, ast.Constant) and isinstance(n.value, str):
+                m = _re.match(r'^([a-z][a-z_0-9]*)<', n.value)
+                if m:
+                    voc.add(m.group(1))
+            elif isinstance(n, ast.Assign) and len(n.targets) == 1 and isinstance(n.targets[0], ast.Name) \
+                    and n.targets[0].id in ('flag', 'w_flag', 'e_flag') and isinstance(n.value, ast.Constant) \
+                    and isinstance(n.value.value, str) and _re.fullmatch(r'[a-z][a-z_0-9]*', n.value.value):
+                voc.add(n.value.value)
+    return voc
+
+
+def flag_prefix_tests(ctx, rule='TBL', module_suffixes=None):
+    """A flag is recognised by ``flag.startswith(name)`` / ``name in flag``:
+    if ``name`` is also the beginning of a different flag's name (dup_lot /
+    dup_lot_acreage), the test answers for the wrong flag."""
+    voc = flag_vocabulary(ctx)
+    n = 0
+    for fi in ctx.repo.funcs.values():
+        if module_suffixes and not fi.module.name.endswith(tuple(module_suffixes)):
+            continue
+        for c in walk_local(fi.node):
+            consts = []
+            node = None
+            if isinstance(c, ast.Call) and isinstance(c.func, ast.Attribute) and c.func.attr == 'startswith' and len(c.args) == 1 \
+                    and isinstance(c.func.value, ast.Name) and 'flag' in c.func.value.id:
+                node = c.args[0]
+            elif isinstance(c, ast.Compare) and len(c.ops) == 1 and isinstance(c.ops[0], (ast.In, ast.NotIn)) \
+                    and isinstance(c.comparators[0], ast.Name) and 'flag' in c.comparators[0].id:
+                node = c.left
+            if node is None:
+                continue
+            if isinstance(node, ast.Constant) and isinstance(node.value, str):
+                consts = [node.value]
+            elif isinstance(node, ast.Name) and node.id in fi.params() and fi.outer is not None:
+                idx = [p for p in fi.params() if p not in ('self', 'cls')].index(node.id) if node.id in fi.params() else None
+                for k in walk_local(fi.outer.node):
+                    if isinstance(k, ast.Call) and dotted(k.func) == fi.node.name:
+                        a = k.args[idx] if idx is not None and idx < len(k.args) else next(
+                            (kw.value for kw in k.keywords if kw.arg == node.id), None)
+                        if isinstance(a, ast.Constant) and isinstance(a.value, str):
+                            consts.append(a.value)
+            for cst in consts:
+                if cst not in voc:
+                    continue
+                n += 1
+                others = sorted(v for v in voc if v != cst and v.startswith(cst)) or ['']
+                ctx.check(others == [''], rule, f"{fi.qualname}: the flag test on {cst!r} cannot be answered by a different flag",
+                          detail_bad=f"{cst!r} is also how {others} begin{'s' if len(others) == 1 else ''}: "
+                                     f"`{norm(c)[:60]}` is true for {others[0]!r} flags too, so the {cst!r} flag is taken "
+                                     f"for present (or handled) when only {others[0]!r} is",
+                          key=f"{rule}|{fi.qualname}|prefix|{cst}", where=loc(fi, c))
+    return n
